@@ -223,3 +223,13 @@ BUILTINS = {
     "dict": "shallow", "frozenset": "shallow",
     "max": "elem", "min": "elem", "next": "elem", "sum": "elem",
 }
+
+# row-order facts used by the A5 ORDER analysis (sa/order.py); each is part of the trusted base
+ORDER_FACTS = {
+    "sort_values / TimedList.sorted": "result ordered by the key (ties: order of the input when kind='stable')",
+    "groupby(...)": "groups are ordered by key (sort=True default); rows inside a group keep the frame's order",
+    "merge(how='outer', on=k)": "result keys are the union of both sides sorted lexicographically (verified on pandas 2.3.3)",
+    "concat": "rows of the parts in the order listed",
+    "Series op Series": "aligned on labels, hence independent of row order (not a site)",
+    "TimingMap.offsets/snaps/beats": "results in query order (C10.R1)",
+}
